@@ -162,6 +162,10 @@ impl Request {
     //@| closure `|s|`#1 => `|s: &str| -> (vf_r: String)`
 }
 
+// ---- PINS: functions of /repo this unit (or the property it serves) only ASSUMES something about — a hand-written shim stands for them, or nothing at
+// all does. The assumption was made for one text of each; the token hash ties it to that text: a change makes the unit UNDECIDED (exit 2), never OK.
+//@@ pin src/http/request.rs :: impl Request / fn set_created_at = ee0caa8f4197
+//@@ pin src/http/query.rs :: fn sanitize_url = f2a1c8f1c44a
 //@@ strlits
 } // verus!
 fn main() {}
